@@ -178,6 +178,10 @@ def _url_consts(lf):
 
 
 def t_format(lf):
+    """`LogFormatter.format(record)` WHOLE: the inner formatter's call (`origFormat record`, the line) and everything
+    after it.  The record itself stays in scope (`record.msg` = the message *template*, `LogRec.msg`), so a guard or
+    a stage that reads the template / the arguments instead of the formatted line is translated as such and
+    `generated_format_eq_model` fails on it."""
     fn = lf.func("format", "LogFormatter")
     if [a.arg for a in fn.args.args] != ["self", "record"]:
         raise Untranslatable("format signature")
@@ -190,7 +194,20 @@ def t_format(lf):
         raise Untranslatable("format: shape of the try")
     pat, rep = _url_consts(lf)
 
+    def template(n):
+        """record.msg | str(record.msg) | getattr(record, "msg"[, default]) | str(getattr(...)): the template as text"""
+        if isinstance(n, ast.Call) and _u(n.func) == "str" and len(n.args) == 1 and not n.keywords:
+            return template(n.args[0])
+        if isinstance(n, ast.Attribute) and _u(n.value) == "record" and n.attr == "msg":
+            return True
+        if isinstance(n, ast.Call) and _u(n.func) == "getattr" and 2 <= len(n.args) <= 3 and not n.keywords \
+                and _u(n.args[0]) == "record" and _str_const(n.args[1]) and n.args[1].value == "msg":
+            return True
+        return False
+
     def hook(n, go):
+        if template(n):
+            return "(LogRec.msg record)"
         if isinstance(n, ast.Compare) and len(n.ops) == 1 and isinstance(n.ops[0], ast.In) and _str_const(n.left):
             return "(isInfix %s %s = true)" % (chars(n.left.value), go(n.comparators[0]))
         r = _base_hook(n, go)
@@ -201,13 +218,17 @@ def t_format(lf):
         if isinstance(n, ast.Call) and _u(n.func) == "re.sub" and len(n.args) == 3 and not n.keywords \
                 and _u(n.args[0]) == pat and _u(n.args[1]) == rep:
             return "(urlSub %s)" % go(n.args[2])
+        if isinstance(n, (ast.Attribute, ast.Call)) and any(isinstance(x, ast.Name) and x.id == "record" for x in ast.walk(n)):
+            raise Untranslatable("format reads %s of the record" % _u(n)[:40])
         return None
 
     ex = pystmt.Expr(hook=hook)
-    ex.bound.add("msg")
+    ex.bound |= {"msg", "record"}
     term = pystmt.Stmts(ex).block(body[1:], "msg", 1)
-    return ("/-- `LogFormatter.format` after the inner formatter produced `msg`; `urlSub` is the `re.sub` of the URL rule -/\n"
-            "def format (sanitize urlSub : Str → Str) (msg : Str) : Str :=\n  %s\n" % term)
+    return ("/-- `LogFormatter.format(record)`: `origFormat` is the inner formatter (`self.orig_formatter.format`), `record.msg` the\n"
+            "message *template* (`LogRec.msg`); `urlSub` is the `re.sub` of the URL rule -/\n"
+            "def format (origFormat : LogRec → Str) (sanitize urlSub : Str → Str) (record : LogRec) : Str :=\n"
+            "  let msg := (origFormat record)\n  %s\n" % term)
 
 
 # --------------------------------------------------------------------------- sanitize_record, after the loop
